@@ -9,7 +9,7 @@ from sim.core import H, digest
 ID = "C01"
 LEVEL = "exploration"
 BATCH = 6
-QUICK_WORLDS = 288
+QUICK_WORLDS = 384
 THOROUGH_BUDGET_S = 900
 RUN_TIMEOUT = 120
 CLASSES = mr.ALL_CLASSES
